@@ -25,6 +25,9 @@ CHECKS = {
  "C14": dict(engine="B", category="translation_validation", technique="SMT with quantifiers (z3): soundness orig=0 => simp=0 & recorded eliminations, completeness simp=0 => exists eliminated. orig=0, on the real residual Functions before/after Model.simplify",
    text="For every (model, option set) - all 64 subsets of the six interacting simplification options plus further sets, on triangular/affine systems with alias chains of every sign pattern - the real simplify() runs on the real MX graphs and z3 proves solution-set equality (projection) and that every recorded alias sign / constant value holds in every original solution, over all reals.",
    note="Parameters/constants fixed at declared values; warnings/exceptions count as reported failure; bounded model family.", ref="4/C14"),
+ "C15": dict(engine="A", category="model_checking", technique="CrossHair symbolic execution (z3) of the real Model.simplify/_simplify_once with the Boolean simplification options symbolic; per shard 'Confirmed over all paths' that the balance is unchanged and both residual Functions can be constructed",
+   text="For the square, uniquely solvable model family (base, affine, if-else, derivative aliases, parameter aliases, alias chains of every sign pattern) and ALL settings of 6 (thorough: 9) simplification options: simplify() does not raise, (#states + #algebraic) - #residual rows is unchanged, and dae/initial residual Functions can be built (no remaining reference to an eliminated variable).",
+   note="Per-path cost through CasADi bounds the option space; values realised at the CasADi boundary.", ref="4/C15"),
  "C16": dict(engine="B", category="translation_validation", technique="SMT equivalence (z3) of the merged attributes, made symbolic through the real code by declaring them as parameters, against the specification (intersection with sign swap, max nominal, or fixed, start rule)",
    text="Alias classes of 2-4 (thorough 5) variables, every sign pattern, canonical state/input/algebraic, every subset of explicit starts: the real detect_aliases merging produces CasADi expressions in the attribute parameters and z3 proves them equal to the specification for all parameter values (Variable objects and metadata function).",
    note="INF modelled as a constant above every attribute parameter; fixed flags literal.", ref="4/C16"),
